@@ -67,9 +67,32 @@ UPPER_NOT_ABOVE = {('floor', True): lambda c: c <= 0, ('floor', False): lambda c
                    ('ceil', True): lambda c: c <= -1, ('ceil', False): lambda c: c <= -1}
 
 
+def _delegate(f, depth=0):
+    """a formula function that never looks at the measure itself but hands all its parameters, in order, to one
+    other function of the module (a memoising or otherwise thin wrapper): the formulas are that function's"""
+    if depth > 2 or any(isinstance(n, ast.Name) and n.id == 'sim_measure_type' and isinstance(p_, ast.Compare)
+                        for p_ in ast.walk(f.node) for n in ast.walk(p_) if isinstance(p_, ast.Compare)):
+        return f
+    repo = getattr(f.module, 'repo', None)
+    if repo is None:
+        return f
+    targets = []
+    for c in repo.calls_in(f):
+        r = repo.resolve_call(f, c)
+        if r is None or r[0] is f or r[0].module is not f.module:
+            continue
+        g, _, b = r
+        if g.params == f.params and all(isinstance(b.get(p_), ast.Name) and b[p_].id == p_ for p_ in g.params):
+            targets.append(g)
+    if len(targets) == 1:
+        return _delegate(targets[0], depth + 1)
+    return f
+
+
 def read_branches(ctx, f):
     """-> {measure: [(side-condition text, return expr ast, return stmt)]}; a measure with no return
     is mapped to []"""
+    f = _delegate(f)
     view = view_of(f)
     ex = expander(view)
     conds = Conds(f.node, ex)
